@@ -191,6 +191,18 @@ class CacheOracle:
                     return True
                 k += 1
             return False
+        # does the code's visibility chain of object i (or of a member) leave the listing?  (stored _parent of an
+        # object that the parent no longer lists: remove/pop/clear keep _parent)
+        def stale_edge(ob, depth=0):
+            k = 0
+            while ob is not None and k < 2000:
+                p = getattr(ob, "_parent", None)
+                if p is not None and not any(ob is e for e in getattr(p, "_layers", [])):
+                    return True
+                ob, k = p, k + 1
+            return False
+        if stale_edge(w.objs[i]):
+            causes.add("stale-parent-chain")
         for (o, out, changed) in self.events[self.fill_at[i]:]:
             if changed or (o[0] in ec.STRUCTURAL and out[0] == 0):
                 causes.add("struct")
@@ -224,6 +236,7 @@ def _stale(f):
 core.KNOWN_CLASSIFIERS["F-C14-1"] = lambda f: _stale(f) and "struct" in _c(f)
 core.KNOWN_CLASSIFIERS["F-C14-2"] = lambda f: _stale(f) and "doc-setter" in _c(f)
 core.KNOWN_CLASSIFIERS["F-C14-3"] = lambda f: _stale(f) and "ancestor-visibility" in _c(f)
+core.KNOWN_CLASSIFIERS["F-C14-5"] = lambda f: _stale(f) and "stale-parent-chain" in _c(f)
 core.KNOWN_CLASSIFIERS["F-C14-4"] = lambda f: (_stale(f) or f["kind"] == "fresh-bbox-wrong") and "alias" in _c(f)
 
 
@@ -239,6 +252,7 @@ def _w(case, kinds):
 core.KNOWN_WITNESS["F-C14-1"] = _w((4, [("NewGroup", 0), ("ObsBbox", 4), ("NewPixel", 0, 2, 2, 3, 3), ("Append", 4, 5)]), ("stale-cache",))
 core.KNOWN_WITNESS["F-C14-2"] = _w((4, [("ObsBbox", 0), ("SetLeft", 1, 5)]), ("stale-cache",))
 core.KNOWN_WITNESS["F-C14-3"] = _w((1, [("ObsBbox", 2), ("SetVisible", 1, False)]), ("stale-cache",))
+core.KNOWN_WITNESS["F-C14-5"] = _w((1, [("Remove", 1, 2), ("ObsBbox", 2), ("SetVisible", 1, False)]), ("stale-cache",))
 core.KNOWN_WITNESS["F-C14-4"] = _w((4, [("Append", 0, 3), ("ObsBbox", 2), ("SetLeft", 3, 6), ("ObsBbox", 0), ("SetLeft", 3, 0)]), ("stale-cache",))
 
 
@@ -326,6 +340,10 @@ def gen_cases(ck):
             for o2 in ec.ops_for(kinds1, ["ObsBbox"]):
                 if o2[1] in (0, 1, 2, o1[1]):
                     cases.append((1, [o1, e, o2]))
+    # detached group whose stored _parent is stale: read, then change the old parent
+    for o0 in (("Remove", 1, 2), ("Pop", 1, 0), ("DelItem", 1, 0), ("Clear", 1)):
+        for e in ec.ops_for(kinds1, ["SetVisible", "MoveToGroup", "DeleteLayer"]):
+            cases.append((1, [o0, ("ObsBbox", 2), e, ("ObsBbox", 2)]))
     n3x = len(cases) - n1 - n2
     n3 = 40000 if thorough else 6000
     for _ in range(n3):
